@@ -65,7 +65,7 @@ def cases(tier, seed):
                                    "trailer": tr}
     for part in range(16):
         yield {"layer": "P", "part": part, "seed": seed}
-    for fl in (0, 1):
+    for fl in (0, 1, 2):
         yield {"layer": "R", "flow": fl, "seed": seed}
 
 
@@ -85,7 +85,17 @@ def run_r(case):
     """a damaged TCP segment followed by its intact retransmission: with -c the damaged one is ignored and the
     retransmission takes its place - the export equals that of the capture from which the damaged packet was removed"""
     seed = case["seed"]
-    if case["flow"] == 0:
+    if case["flow"] == 2:
+        # every record header travels in a 5-byte segment of its own (a sender that writes header and body separately)
+        def cutter(d, i, data):
+            out, pos = [], 0
+            while pos < len(data):
+                ln = int.from_bytes(data[pos + 3:pos + 5], "big")
+                out += [data[pos:pos + 5], data[pos + 5:pos + 5 + ln]]
+                pos += 5 + ln
+            return [x for x in out if x]
+        f = scen.tls_flow({"version": tls.TLS12, "suite": 0xC02F, "history": [("c", 30), ("s", 70), ("c", 5)]}, seed, 0, cutter=cutter)
+    elif case["flow"] == 0:
         f = scen.tls_flow({"version": tls.TLS12, "suite": 0xC02F, "history": [("c", 30), ("s", 700), ("c", 5), ("s", 9)]}, seed, 0, mss=300)
     else:
         f = scen.tls_flow({"version": tls.TLS13, "suite": 0x1301, "history": [("c", 10), ("s", 500), ("c", 77)]}, seed, 2, v6=True, mss=200)
@@ -235,7 +245,7 @@ def run_p(case):
     f1 = scen.tls_flow({"version": tls.TLS12, "suite": 0xC02F, "history": [("c", 30), ("s", 60), ("c", 5), ("s", 9)]}, seed, 0)
     f2 = scen.quic_flow({"suite": 0x1301}, seed, 1, v6=True)
     f3 = scen.tls_flow({"version": tls.TLS13, "suite": 0x1301, "history": [("c", 10), ("s", 10)]}, seed, 2, v6=True)
-    f4 = scen.quic_flow({"suite": 0x1303, "script": [("c", [(0, 11)]), ("s", [(0, 12)])]}, seed, 3)
+    f4 = scen.quic_flow({"suite": 0x1303, "script": [("c", [(0, 11)]), ("s", [(0, 12)])]}, seed, 3, server_port=8443)   # a port that is not configured
     # the QUIC connections run between the same two hosts as the TLS connections (same addresses, TCP and UDP)
     f2.ends.client.ip, f2.ends.server.ip = f3.ends.client.ip, f3.ends.server.ip
     f4.ends.client.ip, f4.ends.server.ip = f1.ends.client.ip, f1.ends.server.ip
